@@ -33,6 +33,10 @@ def tokens(t):
         return f"I {_o(c.get('min'))} {_o(c.get('max'))} {x(c.get('xmin'))} {x(c.get('xmax'))} {_o(c.get('mult'))}"
     if k in ("N", "B", "Z", "Y"):
         return k
+    if k == "F":
+        c = t[1]
+        x = lambda v: "~" if v is None else ("t" if v is True else ("f" if v is False else str(v)))
+        return f"F {_o(c.get('min'))} {_o(c.get('max'))} {x(c.get('xmin'))} {x(c.get('xmax'))}"
     if k == "S":
         return f"S {_o(t[1])} {_o(t[2])}"
     if k == "E":
@@ -90,6 +94,16 @@ def to_jsonschema(t):
         return s
     if k == "N":
         return {"type": "number"}
+    if k == "F":
+        c, s = t[1], {"type": "number"}
+        if c.get("min") is not None:
+            s["minimum"] = half(c["min"])
+        if c.get("max") is not None:
+            s["maximum"] = half(c["max"])
+        for key, f in (("exclusiveMinimum", "xmin"), ("exclusiveMaximum", "xmax")):
+            if c.get(f) is not None:
+                s[key] = c[f] if isinstance(c[f], bool) else half(c[f])
+        return s
     if k == "S":
         s = {"type": "string"}
         if t[1] is not None:
@@ -164,6 +178,29 @@ def gen_int(rng):
     return ("I", c)
 
 
+def gen_num(rng):
+    """a number member with bounds in half units (x.0 or x.5), either draft spelling"""
+    c = {}
+    lo = rng.choice([0, 1, -5, 3, 21])      # halves: 0, 0.5, -2.5, 1.5, 10.5
+    style = rng.choice(["incl", "x6", "x4t", "x4f"])
+    if style == "incl":
+        c["min"] = lo
+    elif style == "x6":
+        c["xmin"] = lo
+    else:
+        c["min"], c["xmin"] = lo, style == "x4t"
+    if rng.random() < 0.6:
+        hi = lo + rng.choice([1, 3, 10, 200])
+        style = rng.choice(["incl", "x6", "x4t", "x4f"])
+        if style == "incl":
+            c["max"] = hi
+        elif style == "x6":
+            c["xmax"] = hi
+        else:
+            c["max"], c["xmax"] = hi, style == "x4t"
+    return ("F", c)
+
+
 def gen_str(rng):
     lo = rng.choice([None, None, 0, 1, 3])
     hi = None if rng.random() < 0.5 else (lo or 0) + rng.choice([0, 2, 10])
@@ -178,8 +215,10 @@ def gen_scalar(rng):
         return gen_str(rng)
     if r < 0.75:
         return ("B",)
-    if r < 0.88:
+    if r < 0.82:
         return ("N",)
+    if r < 0.88:
+        return gen_num(rng)
     return ("E", rng.sample(["a", "b", "c d", "e-f", "G", "1x", "é"], rng.choice([1, 2, 3])))
 
 
@@ -236,7 +275,7 @@ def gen_obj(rng, depth=0):
 
 
 def constrained_scalar(t):
-    return (t[0] == "I" and any(v is not None for v in t[1].values())) or (t[0] == "S" and (t[1] is not None or t[2] is not None))
+    return (t[0] in ("I", "F") and any(v is not None for v in t[1].values())) or (t[0] == "S" and (t[1] is not None or t[2] is not None))
 
 
 def map_of_constrained(t):
@@ -269,7 +308,9 @@ def gen_instance(rng, t, valid=True, depth=0):
         cand = [0, 1, -5, 10, 11, 13, 20, 110, 2, 5, -6, 9]
         return rng.choice(cand)
     if k == "N":
-        return rng.choice([0, 3, -2])
+        return rng.choice([0, 3, -2, 0.5, -2.5])
+    if k == "F":
+        return rng.choice([0, 1, -3, 5, 11, 0.5, 1.5, -2.5, 10.5, 100.5, 2, 12])
     if k == "S":
         n = rng.choice([t[1] or 0, t[2] if t[2] is not None else (t[1] or 0) + 1, (t[1] or 0) + 1])
         return "a" * n
@@ -345,17 +386,18 @@ def mutate(rng, t, v):
         return rng.choice(["not-a-member", 3, None])
     if k == "B":
         return rng.choice(["zz", None, [True]])
-    if k == "N":
-        return rng.choice(["zz", None, [1]])
+    if k in ("N", "F"):
+        return rng.choice(["zz", None, [1]]) if (k == "N" or rng.random() < 0.4) else (v + rng.choice([0.5, -0.5, 1, -1, 10]) if isinstance(v, (int, float)) and not isinstance(v, bool) else 1.5)
     if k == "Z":
         return rng.choice(["zz", 0, []])
     return v
 
 
 def exactly_typed(v):
-    """instances inside the model's JSON domain: no floats"""
+    """instances inside the model's JSON domain: numbers are integers or odd multiples of one half (a float with an integral value is
+    ambiguous between the two JSON number spellings and left out)"""
     if isinstance(v, float):
-        return False
+        return v * 2 == int(v * 2) and int(v * 2) % 2 == 1
     if isinstance(v, list):
         return all(exactly_typed(x) for x in v)
     if isinstance(v, dict):
@@ -408,11 +450,21 @@ def canon_module(text, root="Root"):
             target[1] = list(target[1])
             target = target[1]
         if num:
-            if target[0] != "int":
+            if target[0] == "float":
+                if "multiple_of" in num:
+                    raise Unmodelled("multiple_of on float")
+                for i, k in enumerate(("ge", "le", "gt", "lt")):
+                    if k in num:
+                        h = num[k] * 2
+                        if h != int(h):
+                            raise Unmodelled("float bound that is not a multiple of one half")
+                        target[1 + i] = int(h)
+            elif target[0] != "int":
                 raise Unmodelled(f"numeric keyword on {target[0]}")
-            for i, k in enumerate(("ge", "le", "gt", "lt", "multiple_of")):
-                if k in num:
-                    target[1 + i] = num[k]
+            else:
+                for i, k in enumerate(("ge", "le", "gt", "lt", "multiple_of")):
+                    if k in num:
+                        target[1 + i] = num[k]
         if ln:
             if target[0] == "str":
                 target[1] = ln.get("lo", target[1])
@@ -439,7 +491,7 @@ def canon_module(text, root="Root"):
             if nm == "str":
                 return ["str", None, None]
             if nm == "float":
-                return ["float"]
+                return ["float", None, None, None, None]
             if nm == "bool":
                 return ["bool"]
             if nm == "Any":
@@ -453,12 +505,16 @@ def canon_module(text, root="Root"):
             special = {"PositiveInt": ("gt", 0), "NegativeInt": ("lt", 0), "NonNegativeInt": ("ge", 0), "NonPositiveInt": ("le", 0)}
             if nm in special:
                 return apply_kw(["int", None, None, None, None, None], {special[nm][0]: special[nm][1]})
+            fspecial = {"PositiveFloat": ("gt", 0), "NegativeFloat": ("lt", 0), "NonNegativeFloat": ("ge", 0), "NonPositiveFloat": ("le", 0)}
+            if nm in fspecial:
+                return apply_kw(["float", None, None, None, None], {fspecial[nm][0]: fspecial[nm][1]})
             if nm in classes:
                 return class_ty(classes[nm])
             raise Unmodelled("name " + nm)
         if isinstance(node, ast.Call) and isinstance(node.func, ast.Name):
             kw = {k.arg: const(k.value) for k in node.keywords}
-            base = {"conint": ["int", None, None, None, None, None], "constr": ["str", None, None]}.get(node.func.id)
+            base = {"conint": ["int", None, None, None, None, None], "constr": ["str", None, None],
+                    "confloat": ["float", None, None, None, None]}.get(node.func.id)
             if base is None:
                 raise Unmodelled("call " + node.func.id)
             out = apply_kw(base, kw)
@@ -608,7 +664,9 @@ def show(t):
         return "(int " + " ".join(_on(x) for x in t[1:6]) + ")"
     if k == "str":
         return f"(str {_on(t[1])} {_on(t[2])})"
-    if k in ("float", "bool", "none", "any"):
+    if k == "float":
+        return "(float)" if all(x is None for x in t[1:5]) else "(floatc " + " ".join(_on(x) for x in t[1:5]) + ")"
+    if k in ("bool", "none", "any"):
         return f"({k})"
     if k == "enum":
         return "(enum" + "".join(" " + (show_name(v) if isinstance(v, str) else f"!{v!r}") for v in t[1]) + ")"
